@@ -278,3 +278,36 @@ PROPS["C05"] = dict(
     level_note="Fixture keys (fresh keys are used by the C08/C20 checks); tree contents sampled, not enumerated.",
     design_ref="DESIGN.md section 7, C05",
 )
+
+
+_ENVS = ["openssl", "gnutls", "GnuTLS", "gnutls ", "mbedtls", "", "x", "opensslgnutls"]
+
+
+def _c12_stages(tier, seed):
+    st = [mc("matrix", "MC_C12", "MC_C12_%s.cfg" % tier, expand=G.replicate(2 if tier == "quick" else 60))]
+    for i, v in enumerate(_ENVS):
+        st.append(gen("env%d" % i, (lambda vv: (lambda seed: [[dict(op="OpsEnv", want=vv)]]))(v), dopts=dict(env={"JWT_CRYPTO": v}), exhaustive=True))
+    st.append(gen("envunset", lambda seed: [[dict(op="OpsEnv", want="~")]], exhaustive=True))
+    return st
+
+
+PROPS["C12"] = dict(
+    level="model_checking", exhaustive=True,
+    stages=_c12_stages,
+    rule="from MC_C12: (A) one forged token per cell, kept in a slot and verified under both providers in both orders "
+         "(key loaded under either provider): every common (key, algorithm) pair x {valid, empty, garbage, not "
+         "base64, flipped first/any bit, truncated, extended with zero/random bytes, signed over other text, other "
+         "key, sibling algorithm, ES: zero-extended r||s and DER} and header/payload altered after signing; (B) "
+         "deterministic algorithms (HS*, RS*, EdDSA): the same builder generates under provider 1 and provider 2, "
+         "token digests must be equal and each provider verifies both; randomised ones (PS*, ES*): cross acceptance; "
+         "(C) all pairs of set_crypto_ops/_t calls over 12 names (exact, case variants, padded, prefixes, unknown, "
+         "empty) and ids -1..5, 99; (D) one driver process per JWT_CRYPTO value {openssl, gnutls, GnuTLS, 'gnutls ', "
+         "mbedtls, '', x, opensslgnutls, unset}. Each matrix cell is concretised 2 (quick) / 60 (thorough) times.",
+    assumptions=ASSUME_COMMON,
+    level_text="TLC enumerates the matrix and checks on the specification that verdicts and deterministic tokens do "
+               "not depend on the provider variable and that the provider changes only on an exact name/id; each "
+               "cell is executed and the two providers' verdicts on the same token bytes (and their tokens for "
+               "deterministic algorithms) are compared in TLC.",
+    level_note="ES256K is outside the common support matrix (GnuTLS lacks it). Non-canonical base64 of a valid signature is neither 'RFC-valid' nor 'not validly signed' and is excluded.",
+    design_ref="DESIGN.md section 7, C12",
+)
